@@ -117,6 +117,11 @@ pub trait Property: Send + Sync + 'static {
     fn crash_is_violation(&self) -> bool {
         false
     }
+    /// Signature of a confirmed hang of this case (a property may name the shape that hangs, so that a listed
+    /// finding excludes only that shape).
+    fn hang_sig(&self, _case: &Value) -> String {
+        "hang".into()
+    }
     /// CPU seconds a single case may use before it becomes a hang candidate.
     fn cpu_budget(&self) -> f64 {
         20.0
@@ -476,6 +481,12 @@ pub(crate) fn classify<P: Property>(
     let budget = p.cpu_budget();
     let mut reply = w.ask(case_json, strict, budget);
     if let Reply::Hang(_) = reply {
+        // a shape already listed as an open finding is not given the second, long run: calling it
+        // "still hangs" raises no alarm, so there is nothing to protect against
+        let sig = p.hang_sig(case_json);
+        if p.crash_is_violation() && open_sigs.contains(&sig) {
+            return if strict { (ResKind::Fail { sig, detail: format!("case still running after {budget:.0} CPU seconds (listed shape, first-stage budget only)") }, None) } else { (ResKind::Known(sig), None) };
+        }
         // two-stage rule: re-run alone with 10x the budget before calling it a hang
         reply = w.ask(case_json, strict, budget * 10.0);
         if !matches!(reply, Reply::Hang(_)) {
@@ -510,7 +521,7 @@ pub(crate) fn classify<P: Property>(
             }
         }
         Reply::Hang(cpu) => {
-            let sig = "hang".to_string();
+            let sig = p.hang_sig(case_json);
             if p.crash_is_violation() {
                 (ResKind::Fail { sig, detail: format!("case still running after {cpu:.0} CPU seconds (two-stage budget)") }, None)
             } else {
